@@ -73,7 +73,10 @@ class C13(C12):
                         a.assemble("\n".join(text) + "\n", A.X86Syntax.ATT)
                         r = a.finalize()
                     except Exception as e:   # noqa
-                        bads.append(dict(what=f"second insertion of the same text fails: {type(e).__name__}", input={"text": text}, finding=None))
+                        # k == 0: the concatenated text itself is not assemblable (the chunked run got through because of the known
+                        # restart in .text); only a failure of the second copy is a clash
+                        if k == 1:
+                            bads.append(dict(what=f"second insertion of the same text fails: {type(e).__name__}", input={"text": text}, finding=None))
                         ok = False
                         break
                     for s in r.symbols:
